@@ -39,7 +39,7 @@ package rsync
 
 //@ func (*Signature).EnsureValid
 //@   ensures[valid] result == nil ==> sigvalid(s)
-//@   loop 1 invariant -1 <= rangeindex && rangeindex < len(s.Hashes) || (rangeindex == -1 && len(s.Hashes) == 0)
+//@   loop 1 invariant[index] -1 <= rangeindex && rangeindex < len(s.Hashes) || (rangeindex == -1 && len(s.Hashes) == 0)
 //@   loop 1 invariant[valid] forall k in 0..rangeindex+1 :: s.Hashes[k] != nil
 
 //@ iface OperationTransmitter
@@ -54,7 +54,7 @@ package rsync
 //@   requires e != nil
 //@   requires[fits] size <= 9223372036854775807
 //@   ensures[size] len(result) == size
-//@   ensures e.operation == old(e.operation)
+//@   ensures[same] e.operation == old(e.operation)
 //@   modifies e.buffer
 
 //@ func (*Engine).weakHash
@@ -71,7 +71,7 @@ package rsync
 //@   ensures[op] txmaxdata == max(old(txmaxdata), len(data))
 //@   ensures[op] txmaxend == max(old(txmaxend), 0)
 //@   ensures[op] txdata == old(txdata) + (len(data) > 0 ? 1 : 0)
-//@   ensures e.operation == old(e.operation)
+//@   ensures[same] e.operation == old(e.operation)
 //@   at call OperationTransmitter assert[op] arg0 == e.operation && arg0.Data == data && arg0.Start == 0 && arg0.Count == 0
 //@   modifies e.operation.Data, e.operation.Start, e.operation.Count, e.operation.state, e.operation.sizeCache, e.operation.unknownFields, txfailed, txafterfail, txcalls, txmalformed, txmaxdata, txmaxend, txdata
 
@@ -81,7 +81,7 @@ package rsync
 //@   ensures[op] txmaxdata == max(old(txmaxdata), 0)
 //@   ensures[op] txmaxend == max(old(txmaxend), start + count)
 //@   ensures[op] txdata == old(txdata)
-//@   ensures e.operation == old(e.operation)
+//@   ensures[same] e.operation == old(e.operation)
 //@   at call OperationTransmitter assert[op] arg0 == e.operation && len(arg0.Data) == 0 && arg0.Start == start && arg0.Count == count
 //@   modifies e.operation.Data, e.operation.Start, e.operation.Count, e.operation.state, e.operation.sizeCache, e.operation.unknownFields, txfailed, txafterfail, txcalls, txmalformed, txmaxdata, txmaxend, txdata
 
@@ -135,7 +135,7 @@ package rsync
 //@   ensures[inrange] txmaxend <= max(old(txmaxend), old(len(base.Hashes)))
 //@   at call panic assert[nopanic] false
 // lookup table: every block index stored in it denotes a full-size block of the base
-//@   loop 1 invariant -1 <= rangeindex && rangeindex < len(hashes) || (rangeindex == -1 && len(hashes) == 0)
+//@   loop 1 invariant[index] -1 <= rangeindex && rangeindex < len(hashes) || (rangeindex == -1 && len(hashes) == 0)
 // ("false ||" keeps the nested quantifier out of the verifier's own instantiation heuristics)
 //@   loop 1 invariant[table] false || forall w in 0..4294967296 :: forall j in 0..len(weakToBlockHashes[w]) :: has(weakToBlockHashes, w) ==> weakToBlockHashes[w][j] <= rangeindex
 // (the next two are needed only while blocks remain to be inserted)
@@ -148,7 +148,7 @@ package rsync
 //@   loop 2 invariant[wellformed] txmalformed == old(txmalformed)
 //@   loop 2 invariant[limit] txmaxdata <= max(old(txmaxdata), maxDataOpSize)
 //@   loop 2 invariant[inrange] txmaxend <= max(old(txmaxend), len(base.Hashes))
-//@   loop 3 invariant -1 <= rangeindex && rangeindex < len(potentials) || (rangeindex == -1 && len(potentials) == 0)
+//@   loop 3 invariant[index] -1 <= rangeindex && rangeindex < len(potentials) || (rangeindex == -1 && len(potentials) == 0)
 //@   loop 3 invariant[entries] forall j in 0..len(potentials) :: potentials[j] < len(base.Hashes)
 //@   loop 3 invariant[match] match ==> matchIndex < len(base.Hashes)
 
@@ -167,7 +167,7 @@ package rsync
 //@   requires[valid] opvalid(operation) && sigvalid(signature)
 //@   requires[inrange] len(operation.Data) == 0 ==> operation.Start + operation.Count <= len(signature.Hashes)
 // (unsigned fields: stated because contract reads carry no range facts)
-//@   requires 0 <= operation.Start && 0 <= operation.Count && 0 <= signature.BlockSize && 0 <= signature.LastBlockSize
+//@   requires[unsigned] 0 <= operation.Start && 0 <= operation.Count && 0 <= signature.BlockSize && 0 <= signature.LastBlockSize
 //@   requires[fits] sigbase(signature)
 //@   ensures[length] result == nil ==> accepted[destination] == old(accepted[destination]) + patchlen(signature, operation)
 //@   at call io.Writer.Write assert[data] len(operation.Data) > 0 ==> arg1 == operation.Data
